@@ -484,3 +484,47 @@ Theorem C04_set_data_exact : forall w ti n d e wc r w',
     end.
 Proof. exact set_data_exact. Qed.
 Print Assumptions C04_set_data_exact.
+
+(* ====================================================================================== *)
+(* The sibling shortcuts at the level of step (audit C04 F1; the area of D14-D16): prepend_sibling /
+   append_sibling are add_child on the node's PARENT with before = the node / the node's next sibling (none:
+   append), and in a typed tree the new node gets the node's kind. *)
+Theorem C04_prepend_sibling : forall w ti n d e k t p s,
+  get_tree w ti = Some t -> parent_of n (forest_of t) = Some p -> get_node n (forest_of t) = Some s ->
+  step w (OShort ti n SPrependSibling d e k) = step w (OAdd ti p d e (if typed t then rkind s else None) (BNode n)).
+Proof. exact prepend_sibling_is_add. Qed.
+Print Assumptions C04_prepend_sibling.
+
+Theorem C04_append_sibling : forall w ti n d e k t p s q0 i l,
+  get_tree w ti = Some t -> parent_of n (forest_of t) = Some p -> get_node n (forest_of t) = Some s ->
+  node_loc n (forest_of t) = Some (q0, i, l) ->
+  step w (OShort ti n SAppendSibling d e k) =
+  step w (OAdd ti p d e (if typed t then rkind s else None)
+               (match nth_error l (S i) with Some nx => BNode (rid nx) | None => BNone end)).
+Proof. exact append_sibling_is_add. Qed.
+Print Assumptions C04_append_sibling.
+
+(* composed with C04_add and C04_sibling_positions: where the node ends up, what it carries, what else changes *)
+Theorem C04_sibling_shortcut_effect : forall w ti n (after : bool) d e k r w' t,
+  WF.WFw w -> get_tree w ti = Some t ->
+  step w (OShort ti n (if after then SAppendSibling else SPrependSibling) d e k) = (Ok r, w') ->
+  exists p s pq a c t' id,
+    parent_of n (forest_of t) = Some p /\ get_node n (forest_of t) = Some s /\
+    parent_path p (forest_of t) = Some pq /\ get_ch pq (forest_of t) = Some (a ++ s :: c) /\
+    get_tree w' ti = Some t' /\ r = [next w] /\
+    (e = Some id \/ e = None /\ calc_id (calc t) d = Some id) /\
+    let x := T (next w) (mk_info d id (default_kind t (if typed t then rkind s else None)) []) [] in
+    get_ch pq (forest_of t') = Some (if after then a ++ s :: x :: c else a ++ x :: s :: c) /\
+    ins_row (p, next w, rinfo x) (rows 0 (forest_of t)) (rows 0 (forest_of t')) /\
+    (forall tj, tj <> ti -> get_tree w' tj = get_tree w tj).
+Proof. exact sibling_shortcut_effect. Qed.
+Print Assumptions C04_sibling_shortcut_effect.
+
+Definition dD : dat := D 3 3 14 true [100%Z].
+Example C04_sibling_shortcuts_nonvacuous :
+  let w := run [ONewTree true None; OAdd 0 0 dA None (Some [120%Z]) BNone; OAdd 0 0 dB None (Some [121%Z]) BNone; OAdd 0 0 dC None None BNone] empty_world in
+  let kids w' := map (fun c => (rid c, rkind c)) (forest_of (nth 0 (trees w') (TS [] [] [] false None))) in
+  kids (snd (step w (OShort 0 2 SPrependSibling dD None None))) = [(1, Some [120%Z]); (4, Some [121%Z]); (2, Some [121%Z]); (3, Some [99; 104; 105; 108; 100]%Z)] /\
+  kids (snd (step w (OShort 0 2 SAppendSibling dD None None))) = [(1, Some [120%Z]); (2, Some [121%Z]); (4, Some [121%Z]); (3, Some [99; 104; 105; 108; 100]%Z)] /\
+  kids (snd (step w (OShort 0 3 SAppendSibling dD None None))) = [(1, Some [120%Z]); (2, Some [121%Z]); (3, Some [99; 104; 105; 108; 100]%Z); (4, Some [99; 104; 105; 108; 100]%Z)].
+Proof. vm_compute. repeat split. Qed.
